@@ -192,6 +192,10 @@ def jobs(tier, seed):
         if kind == 'DRR':
             cfg['smax'] = 3200
         js.append({'harness': 'rr', 'cfg': cfg, 'weight': 30})
+    # weights whose quantum 1500*w/min(w) is not a whole number of bytes
+    js.append({'harness': 'rr', 'weight': 60,
+               'cfg': {'kind': 'DRR', 'rate': 8192, 'table': {0: 7, 1: 10}, 'flows': [1, 1, 0, 0], 'sorts': 'int',
+                       'burst': [0, 1, 1, 1], 'smin': 2100, 'smax': 2200}})
     # three classes
     for kind, t in (('RR', {0: 1, 1: 1, 2: 1}), ('WRR', {0: 2, 1: 1, 2: 1}), ('DRR', {0: 1, 1: 2, 2: 1})):
         cfg = {'kind': kind, 'rate': 8192, 'table': t, 'flows': [2, 0, 1, 2, 0], 'sorts': 'int', 'burst': [0, 1, 1, 1, 1]}
